@@ -237,7 +237,10 @@ def body(task):
     for f in W.on_body_start:
         f(x, proc)
     try:
-        k.park()
+        # the body's duration: a number of scheduling points (workload knob), each of
+        # which is also a point where a signal can arrive
+        for _ in range(max(1, int(W.cfg.get("body_len", 1)))):
+            k.park()
     except BaseException as e:
         proc.in_body = False
         W.bodies_running.pop(proc.pid, None)
